@@ -312,7 +312,15 @@ def c12_r2(ctx, f):
     g = [(cond, pol) for cond, pol, s in fn.guards_of(c.block)]
     val = ("call", "module::Module::value", (cell,))
     ok = any(cond == val and pol is True for cond, pol in g)
-    ctx.check(rid, ok, fn.path + "/dark-only", c.where(), fn.path, "shape callback call",
+    wrong_pol = any(cond == val and pol is False for cond, pol in g)
+    if not ok and not wrong_pol:
+        # no branch on value(cell) around the call: the dark test may live in an iterator adaptor (filter) or a helper this rule
+        # does not read - positive evidence only (the exact rule C12.R7 decides the clause)
+        ctx.abstain(rid, "the shape callback is not called under a branch on value(cell) in path() itself (a filter adaptor or helper?): "
+                         "dark-only drawing not read here", c.where())
+        ok = None
+    if ok is not None:
+      ctx.check(rid, ok, fn.path + "/dark-only", c.where(), fn.path, "shape callback call",
               "the shape callback is not invoked exactly under `cell.value()` being true: light modules (or no modules) would be drawn",
               expected="true edge of value(cell)", found=["%s is %s" % (expr_str(cd, fn), p) for cd, p in g],
               sample="callback called under value(cell) == true")
@@ -344,6 +352,11 @@ def c12_r2(ctx, f):
     xdefs = [k[1] for k, v in loops.items() if k[0] == "enum" and k[2] == 0]
     oky = len(ydefs) >= 1 and a0 == poly.A(("loopvar", ydefs[0])) + poly.A("margin")
     okx = len(xdefs) >= 1 and a1 == poly.A(("enum0", xdefs[0])) + poly.A("margin")
+    plain = bool(xdefs and ydefs) and (loop_kind(fn, xdefs[0]) or (None,))[0] == "enumerate" and (loop_kind(fn, xdefs[0])[1] or (None,))[0] == "iter"
+    if not plain:
+        ctx.abstain(rid, "the row/column loops of path() are not `for y in 0..size` / `for (x, cell) in qr[y].iter().enumerate()`: the "
+                         "coordinates and the module handed to the callback are not read here", c.where())
+        return
     ctx.check(rid, oky, fn.path + "/anchor-y", c.where(), fn.path, "arg#0 (row) of the callback",
               "the row coordinate is not row + margin with row ranging over 0..size", expected="y + margin", found=a0.show(),
               sample="callback row = y + margin")
